@@ -108,6 +108,74 @@ Section Encryption.
     decode_rows (match frame with Some c => c | None => cached end) rows.
 End Encryption.
 
+(* ---- which columns are encrypted is DERIVED, per column, from the policy and the column's OWN (keyspace, table, name):
+   BoundStatement.bind builds ColDesc(col_spec.keyspace_name, col_spec.table_name, col_spec.name) for every bind marker
+   (markers of a prepared BATCH / a PREPARED response without global table spec belong to different tables);
+   recv_results_rows builds ColDesc(md[0], md[1], md[2]) for every result column and asks the policy for every cell.
+   The policy (AES256ColumnEncryptionPolicy.coldata, a dict) is mutable: add_column may come at any time. ---- *)
+Definition coldesc : Type := (Z * Z * Z)%type.
+
+Definition desc_eqb (a b : coldesc) : bool :=
+  let '(a1, a2, a3) := a in let '(b1, b2, b3) := b in (a1 =? b1) && (a2 =? b2) && (a3 =? b3).
+
+Section Policy.
+  Variable V T : Type.
+  Variable ser : T -> V -> option (list Z).
+  Variable deser : T -> list Z -> option V.
+  Variable enc dec : list Z -> list Z -> list Z -> list Z.
+
+  Definition policy : Type := list (coldesc * (list Z * T)).
+
+  Fixpoint pol_find (p : policy) (d : coldesc) : option (list Z * T) :=
+    match p with
+    | [] => None
+    | (d', kt) :: r => if desc_eqb d' d then Some kt else pol_find r d
+    end.
+
+  (* coldata[coldesc] = ColData(key, type): the newest registration wins *)
+  Definition add_column (p : policy) (d : coldesc) (k : list Z) (t : T) : policy := (d, (k, t)) :: p.
+
+  (* one bind marker / one result column: its own ColDesc and its type in the statement / result metadata *)
+  Record marker : Type := mkmarker { m_desc : coldesc; m_type : T }.
+
+  (* contains_column / column_type / the key used by _get_cipher, for THIS marker *)
+  Definition resolve (p : policy) (m : marker) : column T :=
+    match pol_find p (m_desc m) with
+    | Some (k, t) => mkcol (Some k) t (m_type m)
+    | None => mkcol None (m_type m) (m_type m)
+    end.
+
+  (* histories on one policy object: register a column; decode a result; write rows through a prepared statement and
+     read them back (the server echoes).  The policy is the only state: neither path may remember an earlier answer. *)
+  Inductive pop : Type :=
+  | PAdd (d : coldesc) (k : list Z) (t : T)
+  | PDecode (ms : list marker) (wire : list (list (option (list Z))))
+  | PRound (ms : list marker) (iv : list Z) (rows : list (list (option V))).
+
+  Inductive pout : Type :=
+  | OutAdded
+  | OutDecoded (r : option (list (list (option V))))
+  | OutRound (sent : option (list (list (option (list Z))))) (back : option (list (list (option V)))).
+
+  Definition pstep (p : policy) (o : pop) : policy * pout :=
+    match o with
+    | PAdd d k t => (add_column p d k t, OutAdded)
+    | PDecode ms wire => (p, OutDecoded (decode_rows V T deser dec (map (resolve p) ms) wire))
+    | PRound ms iv rows =>
+        let cols := map (resolve p) ms in
+        let w := bind_rows V T ser enc iv cols rows in
+        (p, OutRound w (match w with Some wire => decode_rows V T deser dec cols wire | None => None end))
+    end.
+
+  Fixpoint prun (p : policy) (ops : list pop) : policy * list pout :=
+    match ops with
+    | [] => (p, [])
+    | o :: r => let '(p1, x) := pstep p o in let '(p2, xs) := prun p1 r in (p2, x :: xs)
+    end.
+End Policy.
+
+Arguments mkmarker {T}. Arguments m_desc {T}. Arguments m_type {T}.
+
 (* ---- running cases: values are their own serialization (the codec is abstract), AES replaced by the identity;
    the harness normalises real ciphertext with an independent AES-CBC decryption (the trusted library). ---- *)
 Definition id_cipher (k iv x : list Z) : list Z := x.
@@ -124,6 +192,12 @@ Definition c39_run (iv : list Z) (keys : list (option (list Z))) (rows : list (l
 
 Definition c39_decode (keys : list (option (list Z))) (wire : list (list (option (list Z)))) :=
   decode_rows (list Z) unit c39_deser id_cipher (map c39_col keys) wire.
+
+(* the harness passes the policy registrations and every column's own ColDesc; which columns are encrypted is computed here *)
+Definition c39_policy (regs : list (coldesc * list Z)) : policy unit := map (fun r => (fst r, (snd r, tt))) regs.
+
+Definition c39_keys (regs : list (coldesc * list Z)) (descs : list coldesc) : list (option (list Z)) :=
+  map (fun d => ce_key (resolve unit (c39_policy regs) (mkmarker d tt))) descs.
 
 Definition c39_recv (frame : option (list (option (list Z)))) (cached : list (option (list Z))) (wire : list (list (option (list Z)))) :=
   recv_rows (list Z) unit c39_deser id_cipher
